@@ -13,7 +13,7 @@ CHECKS = {
    text="Exact rational Butcher tableaux in TLA+ (spec/tableaux, generated from checks/tableaux_gen.py); every rooted-tree order condition up to p (RK4 p=4, RK23 p=3, DOPRI5 p=5), the failing tree of order p+1, the embedded-estimator conditions, and for DOP853 row sums + quadrature conditions within 1e-25 are discharged by Apalache; the coefficients the real steppers apply (c, A, b, error-estimator sums, source constants) are extracted by probing and compared with the specification to <=1 ulp by a TLC trace spec - on plain steps, on the shortened landing step, on the accepted retry after a rejected attempt and with dense_output off. Radau IIA: the nodes as roots of 10c^2-8c+1 (bracketed to 1e-30) and R(z) as the (2,3) Pade approximant of exp are Apalache identities; every Newton triple of recorded runs evaluates at x+c_i h (3 ulp), y'=t^k (k<=4) is integrated exactly, and every accepted step of adaptive runs on y'=lambda*y equals R(h*lambda) in exact rational arithmetic (1.2e-10 relative).",
    note="NOT decided: the ~190 remaining DOP853 tree conditions of order <=8 (literature), the tol^(-1/q) growth law, Radau's order on nonlinear problems, BDF (numeric). Trusted: Apalache/Z3, TLC, the generator's expansion tree -> integer identity, python Fraction arithmetic for float->rational distances.",
    ref="5 (C02), 3.4"),
- "C03": dict(cat="model_checking", tech=TLA + " (stepper/handler state machines, implementation-shaped Radau / BDF / DOPRI5-DOP853 loop models) with trace validation of recorded solve_ivp runs and replay of TLC-generated handler scenarios",
+ "C03": dict(cat="model_checking", tech=TLA + " (stepper/handler state machines, implementation-shaped loop models of all six steppers (Radau.tla, Bdf.tla, Dopri.tla)) with trace validation of recorded solve_ivp runs and replay of TLC-generated handler scenarios",
    text="Interval discipline and honest status are contract operators of the TLA+ specification (spec/stepper/StepperContract.tla, spec/handler/HandlerContract.tla). TLC checks the bounded stepper model (all six variants, every relation of first_step/max_step/budget to the span) against them and validates recorded runs of the real solve_ivp (corner sweep + seeded random sweep, both directions, all methods): every ode/jac/events time within [x0,xend], samples start at x0 and are strictly monotone, Success iff the interval was covered, UserInterrupt iff a terminal event stopped the run, shapes, finiteness.",
    note="Times enter TLC as ranks of the recorded doubles plus hex tokens; the xend +/- 8 ulp marks and finiteness flags are computed by the recorder (trusted). Bounded model: span <= 3 coarse steps.",
    ref="5 (C03)"),
@@ -108,7 +108,7 @@ def main():
         "setup_cmd": "cd /verif/harness && CARGO_NET_OFFLINE=true cargo build --release --offline --bins",
         "hooks": {
             "guard": "ivp_verif",
-            "what": "solve::solout::verif::Handler (public wrapper of the crate-private output handler); verif_trace (thread-local decision-point sink) + one-line reports in RADAU::solve, BDF::solve, DOPRI5::solve and DOP853::solve",
+            "what": "solve::solout::verif::Handler (public wrapper of the crate-private output handler); verif_trace (thread-local decision-point sink) + one-line reports in the solve loops of all six methods",
             "enable": "--cfg ivp_verif via /verif/harness/.cargo/config.toml rustflags; the harness crate depends on /repo by path and is rebuilt by every check",
             "baseline_off_cmd": "cd /repo && cargo test --workspace --no-fail-fast --offline",
             "source_commits": hook_commits,
